@@ -12,8 +12,8 @@ configuration the handler runs with.
                     (responsematchers.go:70-120, matchers.go:965-1004) for `status …`, `header F v`, `header !F`.
 * `loadEncode`    = JSON round trip, `Provision` (defaults: minimum_length 512, the Content-Type matcher,
                     gzip level 5) and `Validate` (gzip level range, `prefer` ⊆ enabled without duplicates).
-Outside (`unsupported`): nested blocks on other lines than `match`, header lines with more than a field and a
-value, field names with other bytes than letters/digits/`-`, signed status codes.
+Outside (`unsupported`): nested blocks on other lines than `match` / `gzip` / `zstd`, status arguments with
+other bytes than digits, `x`, `+`, `-`.
 -/
 import CaddyModel.C15.Model
 
@@ -76,9 +76,6 @@ def CfState.empty : CfState := ⟨0, none, false, [], 0, []⟩
 
 /-! ### response matcher segment -/
 
-def fieldOk (f : Bytes) : Bool :=
-  !f.isEmpty && f.all (fun c => (48 ≤ c && c ≤ 57) || (65 ≤ c && c ≤ 90) || (97 ≤ c && c ≤ 122) || c == 45)
-
 /-- `headers[field] = nil` -/
 def mapSetNil : List (Bytes × Option (List Bytes)) → Bytes → List (Bytes × Option (List Bytes))
   | [], k => [(k, none)]
@@ -91,30 +88,32 @@ def mapAdd : List (Bytes × Option (List Bytes)) → Bytes → Bytes → List (B
     if k' = k then (k, some ((match vs with | some l => l | none => []) ++ [v])) :: t
     else (k', vs) :: mapAdd t k v
 
-/-- `MatchHeader.UnmarshalCaddyfile` on the tokens after `header` -/
+/-- `MatchHeader.UnmarshalCaddyfile` on the tokens after `header`: a field and a value (or `!field` alone);
+    whatever follows on the line is read in rounds of "one token that is skipped (the loop's `d.Next()`), then
+    again a field and a value" -/
 def parseHeaderSeg (m : Matcher) : List Bytes → CfRes Matcher
   | [] => .parseErr                                   -- "expected field"
   | [f] =>
     match f with
     | 33 :: name =>
       if name.isEmpty then .parseErr                  -- "must have field name following ! character"
-      else if !fieldOk name then .unsupported
       else .ok { m with headers := mapSetNil m.headers name }
     | _ => .parseErr                                  -- "expected both field and value"
   | [f, v] =>
     match f with
     | 33 :: _ => .parseErr                            -- "null matching headers cannot have a field value"
-    | _ => if !fieldOk f then .unsupported else .ok { m with headers := mapAdd m.headers (canonKey f) v }
-  | f :: _ :: _ :: _ =>
+    | _ => .ok { m with headers := mapAdd m.headers (canonKey f) v }
+  | f :: v :: _ :: more =>
     match f with
     | 33 :: _ => .parseErr
-    | _ => .unsupported
+    | _ => parseHeaderSeg { m with headers := mapAdd m.headers (canonKey f) v } more
 
-def statusTokOk (t : Bytes) : Bool := !t.isEmpty && t.length ≤ 9 && t.all (fun c => (48 ≤ c && c ≤ 57) || c == 120)
+def statusTokOk (t : Bytes) : Bool :=
+  !t.isEmpty && t.length ≤ 10 && t.all (fun c => (48 ≤ c && c ≤ 57) || c == 120 || c == 43 || c == 45)
 
-/-- one `status` argument: `2xx` means the class 2 -/
-def parseStatusTok (t : Bytes) : Option Nat :=
-  natOfDigits (if t.length = 3 && hasSuffix tXX t then t.take 1 else t)
+/-- one `status` argument: `2xx` means the class 2; otherwise `strconv.Atoi` -/
+def parseStatusTok (t : Bytes) : Option Int :=
+  atoi (if t.length = 3 && hasSuffix tXX t then t.take 1 else t)
 
 def parseStatusArgs (m : Matcher) (args : List Bytes) : CfRes Matcher :=
   if args.isEmpty then .parseErr
@@ -173,7 +172,6 @@ def procToks (sub : Option (List (List Bytes))) : List Bytes → CfState → CfR
         | .parseErr => .parseErr
         | .loadErr => .loadErr
         | .unsupported => .unsupported
-    else if sub.isSome then .unsupported
     else if t = vGzip then
       match rest with
       | [] => .ok { st with encs := addKey st.encs vGzip, gzipLevel := 0, prefer := st.prefer ++ [vGzip] }
@@ -187,6 +185,7 @@ def procToks (sub : Option (List (List Bytes))) : List Bytes → CfState → CfR
       | l :: _ =>
         if zstdLevelOk l then .ok { st with encs := addKey st.encs vZstd, prefer := st.prefer ++ [vZstd] }
         else .parseErr
+    else if sub.isSome then .unsupported
     else .parseErr                                      -- no such encoder module
 
 def procBlock : List Line → CfState → CfRes CfState
@@ -216,16 +215,10 @@ def parseEncode (args : List Bytes) (block : List Line) : CfRes CfState :=
 
 def entrySupported : List Bytes → Bool
   | [] => true
-  | t :: rest =>
-    if t = tHeader then
-      match rest with
-      | [] => true
-      | [f] => (match f with | 33 :: name => name.isEmpty || fieldOk name | _ => true)
-      | [f, _] => (match f with | 33 :: _ => true | _ => fieldOk f)
-      | f :: _ :: _ :: _ => (match f with | 33 :: _ => true | _ => false)
-    else if t = tStatus then rest.all statusTokOk
-    else true
+  | t :: rest => if t = tStatus then rest.all statusTokOk else true
 
+/-- nested blocks are modelled after `match` (the matcher definition) and after `gzip` / `zstd` (ignored by
+    those modules' unmarshalers) -/
 def lineSupported (l : Line) : Bool :=
   match l.toks with
   | [] => false
@@ -234,7 +227,7 @@ def lineSupported (l : Line) : Bool :=
       (match l.sub with
         | none => entrySupported rest
         | some ls => rest.isEmpty && ls.all entrySupported)
-    else l.sub.isNone && (t != tMinimumLength || !rest.contains tMatch)
+    else (l.sub.isNone || t = vGzip || t = vZstd) && (t != tMinimumLength || !rest.contains tMatch)
 
 /-! ### loading the module -/
 
